@@ -9,6 +9,7 @@ import c18_ref as REF
 import c18_wrap as W
 import c18_scope as SC
 import c18_special as SP
+import c18_mini as MI
 from framework import pmap
 
 ID = 'C18'
@@ -39,7 +40,11 @@ RULE = ('generated small programs (calls, lists, tuples, operators, attributes, 
         'defaults present or absent independently), classes, lambdas and comprehensions against Python scoping computed on the '
         'CPython tree; identifier lists: slots at every index among fixed entries in MatchClass keyword attributes (pattern '
         'templates), call/class keyword names, global/nonlocal names, import aliases, lambda/def arguments, attribute chains, '
-        'filled by name by the reference; plus the documentation examples as directed cases. (a) correspondence: tree, per-node match results of the REAL matcher and the '
+        'filled by name by the reference; combinator patterns: a small declarative pattern language with its OWN matcher on the '
+        'CPython tree (harness/c18_mini.py) compiled to MAND/MOR/MNOT/MTYPES-with-fields/M patterns (which nodes are selected '
+        'while the tree is walked, which node a tag names when tag names nest), judged without the matcher of pfst; special '
+        'captures through coercion (signatures, with-items, dict pairs, handlers, ...) judged by C01 incl. positions with '
+        'multi-byte text; argument reuse (asts list, option dicts); plus the documentation examples as directed cases. (a) correspondence: tree, per-node match results of the REAL matcher and the '
         'template are translated into the Lean model; when the model asks about a tree that did not exist in the input (leave, '
         'loop) the real matcher is asked and the case re-run; result tree (ctx kept) and both counts compared with the real subn. '
         '(b) sweep: the real subn against a pure-AST reference transformer written in the harness (copy.deepcopy, captures taken '
@@ -297,7 +302,7 @@ def run_model(ctx, states):
 
 def correspondence(ctx):
     rng = random.Random(ctx.rng.random())
-    jobs = [dict(j) for j in L.DIRECTED] + L.gen_jobs(rng, 800 if ctx.quick else 9000, string_slots=False) \
+    jobs = [dict(j) for j in L.DIRECTED] + L.gen_jobs(rng, 700 if ctx.quick else 9000, string_slots=False) \
         + L.gen_chain_jobs(rng, 300 if ctx.quick else 3000) + L.gen_arglike_jobs(rng, 250 if ctx.quick else 2500) \
         + L.gen_ctx_jobs(rng, 120 if ctx.quick else 1200)
     k = max(1, len(jobs) // 32)
@@ -442,7 +447,7 @@ def _sweep_case0(job):
     info = {}
     try:
         ref, ru, rt, kept = REF.reference(root0, job['src'], pat, job['tmpl'], job['cat'], s['nested'], s['count'],
-                                          s['loop'], s['on'], info=info, ctx=s.get('ctx', False))
+                                          s['loop'], s['on'], info=info, ctx=s.get('ctx', False), spec=job.get('spec'))
     except REF.Skip as e:
         res['skip'] = 'reference: ' + str(e)
         return res
@@ -572,7 +577,8 @@ def sweep_jobs(ctx, n, layouts):
     import corpus
     rng = random.Random(ctx.rng.random())
     jobs = L.gen_jobs(rng, n) + L.gen_chain_jobs(rng, n // 3, allow_nested=False) + L.gen_arglike_jobs(rng, n // 4) \
-        + L.gen_ctx_jobs(rng, n // 6) + L.gen_override_jobs(rng, n // 6) + L.gen_identlist_jobs(rng, n // 5)
+        + L.gen_ctx_jobs(rng, n // 6) + L.gen_override_jobs(rng, n // 6) + L.gen_identlist_jobs(rng, n // 5) \
+        + MI.jobs(rng, n // 4)
     # the reference covers loop and nested separately
     for j in jobs:
         if j['set']['loop'] is not False and j['set']['nested'] and j['set']['on'] == 'enter':
@@ -615,7 +621,7 @@ def _report(ctx, results):
         ctx.tally('sweep_placement', job['placement'])
         if 'fail' in r:
             cls, what = r['fail'][0], r['fail'][1]
-            w = {'src': job['src'], 'pat': job['pat'], 'tmpl': job['tmpl'], 'set': job['set'], 'cat': job['cat'], 'tmpl_mode': job.get('tmpl_mode'),
+            w = {'src': job['src'], 'pat': job['pat'], 'tmpl': job['tmpl'], 'set': job['set'], 'cat': job['cat'], 'tmpl_mode': job.get('tmpl_mode'), 'spec': job.get('spec'),
                  'shape': job['shape'], 'placement': job['placement'], 'result_src': r.get('out')}
             if len(r['fail']) > 2:
                 w.update(r['fail'][2])
@@ -727,7 +733,7 @@ def replay(ctx, data):
         if 'fail' in r:
             ctx.fail(_wrap_sig(r, r['fail'][0]), r['fail'][1], w)
         return
-    job = {k: w[k] for k in ('src', 'pat', 'tmpl', 'set', 'cat', 'shape', 'placement', 'tmpl_mode') if k in w}
+    job = {k: w[k] for k in ('src', 'pat', 'tmpl', 'set', 'cat', 'shape', 'placement', 'tmpl_mode', 'spec') if k in w}
     r = _sweep_case(job)
     if 'fail' in r:
         ctx.fail(_fail_sig(job, r['fail'][0]), r['fail'][1], w)
